@@ -6,15 +6,27 @@
   silent      nothing reported (equivalent mutant, outside every property, or a hole)
   nobuild     the mutated tree does not compile
 The `undecided` and `silent` lists are the interesting output: each is either an equivalent mutant or a hole in the rules.
-usage: opmut.py [file ...]   (default: the core library files);  writes /verif/seeded/OPMUT.json"""
+usage: opmut.py [--set 2] [--out NAME.json] [file ...]   (default: the core library files);  writes /verif/seeded/OPMUT.json
+--set 2 selects the second operator set (negation removal, boolean literals, + <-> -, deletion of simple call statements)."""
 import json, os, re, shutil, subprocess, sys, tempfile
 from concurrent.futures import ThreadPoolExecutor
 V = os.path.dirname(os.path.dirname(os.path.abspath(__file__)))
 claimed = [c['property_id'] for c in json.load(open(os.path.join(V, 'MANIFEST.json')))['checks']]
-FILES = sys.argv[1:] or ['src/raw/node.rs', 'src/raw/mod.rs', 'src/raw/build.rs', 'src/raw/ops.rs', 'src/raw/registry.rs', 'src/bytes.rs',
+ARGS = sys.argv[1:]
+SET = 1
+OUT = 'OPMUT.json'
+if '--set' in ARGS:
+    i = ARGS.index('--set'); SET = int(ARGS[i + 1]); del ARGS[i:i + 2]
+if '--out' in ARGS:
+    i = ARGS.index('--out'); OUT = ARGS[i + 1]; del ARGS[i:i + 2]
+FILES = ARGS or ['src/raw/node.rs', 'src/raw/mod.rs', 'src/raw/build.rs', 'src/raw/ops.rs', 'src/raw/registry.rs', 'src/bytes.rs',
                          'src/raw/counting_writer.rs', 'src/raw/crc32.rs', 'src/automaton/mod.rs']
 SWAPS = [(' == ', ' != '), (' != ', ' == '), (' < ', ' <= '), (' <= ', ' < '), (' > ', ' >= '), (' >= ', ' > '), (' && ', ' || '), (' || ', ' && '),
          (' + 1', ' + 2'), (' - 1', ' - 2'), (' + 1', ''), (' - 1', '')]
+if SET == 2:
+    SWAPS = [('if !', 'if '), ('while !', 'while '), ('(!', '('), ('true', 'false'), ('false', 'true'), (' + ', ' - '), (' - ', ' + '), ('Some(0)', 'Some(1)'), ('..=', '..'),
+             ('.is_none()', '.is_some()'), ('.is_some()', '.is_none()'), (' | ', ' & '), (' & ', ' | '), (' << ', ' >> '), (' >> ', ' << ')]
+DELETE = re.compile(r'^\s*(self\.)?[a-z_\.\[\]0-9]+\.(clear|pop|push|truncate|insert|extend|extend_from_slice|flush|swap|promote|refill|reserve|unwrap|write_all)\(.*\)(\.unwrap\(\))?\??;\s*$')
 
 
 def mutants():
@@ -39,6 +51,8 @@ def mutants():
                     if code[:i].count('"') % 2 == 1:
                         continue
                     out.append({'file': rel, 'line': ln + 1, 'col': i, 'old': a, 'new': b, 'text': st[:100]})
+            if SET == 2 and DELETE.match(code) and '=' not in code.split('(')[0]:
+                out.append({'file': rel, 'line': ln + 1, 'col': len(line) - len(line.lstrip()), 'old': line.strip(), 'new': '', 'text': st[:100]})
     return out
 
 
@@ -72,7 +86,7 @@ if __name__ == '__main__':
     print(len(ms), 'mutants')
     with ThreadPoolExecutor(max_workers=6) as ex:
         res = list(ex.map(run_one, ms))
-    json.dump(res, open(os.path.join(V, 'seeded', 'OPMUT.json'), 'w'), indent=0)
+    json.dump(res, open(os.path.join(V, 'seeded', OUT), 'w'), indent=0)
     from collections import Counter
     print(Counter(r['result'] for r in res))
     for r in res:
